@@ -53,7 +53,7 @@ Definition expected_held (k : pkind) (q : string) (tw : option expr) (a : option
 
 Definition holds (last want : option pyval) : bool :=
   match last, want with
-  | Some l, Some w => py_eq l w
+  | Some l, Some w => py_eq l w || (is_nan_val l && is_nan_val w)     (* a NaN result is held as NaN *)
   | None, None => true
   | _, _ => false
   end.
